@@ -131,6 +131,26 @@ pub fn char_() -> char {
         }
     }
 }
+/// A char whose UTF-8 encoding has exactly `w` bytes (1..=4).
+pub fn char_of_width(w: usize) -> char {
+    #[cfg(not(kani))]
+    if SRC.with(|s| matches!(*s.borrow(), Source::Random(_))) {
+        let v = u32_();
+        let c = match w {
+            1 => v % 0x80,
+            2 => 0x80 + v % (0x800 - 0x80),
+            3 => {
+                let x = 0x800 + v % (0x10000 - 0x800);
+                if (0xD800..=0xDFFF).contains(&x) { 0x4E2D } else { x }
+            }
+            _ => 0x10000 + v % (0x110000 - 0x10000),
+        };
+        return char::from_u32(c).unwrap();
+    }
+    let c = char_();
+    assume(c.len_utf8() == w);
+    c
+}
 /// A value in `0..n` (n >= 1).
 pub fn below(n: u8) -> u8 {
     let v = u8_();
@@ -140,8 +160,35 @@ pub fn below(n: u8) -> u8 {
     v
 }
 
+/// A value in `lo..=hi`.
+pub fn range_i64(lo: i64, hi: i64) -> i64 {
+    let v = i64_();
+    #[cfg(not(kani))]
+    let v = if SRC.with(|s| matches!(*s.borrow(), Source::Random(_))) {
+        let span = (hi as i128 - lo as i128 + 1) as u128;
+        (lo as i128 + ((v as u64 as u128) % span) as i128) as i64
+    } else {
+        v
+    };
+    assume(v >= lo && v <= hi);
+    v
+}
+
+/// A value in `0..n` (n >= 1), full width.
+pub fn index_below(n: usize) -> usize {
+    let v = usize_();
+    #[cfg(not(kani))]
+    let v = if SRC.with(|s| matches!(*s.borrow(), Source::Random(_))) { v % n } else { v };
+    assume(v < n);
+    v
+}
+
 pub fn stub_format(_: std::fmt::Arguments<'_>) -> String {
     String::new()
+}
+
+pub fn stub_fmt_write(_out: &mut dyn std::fmt::Write, _args: std::fmt::Arguments<'_>) -> std::fmt::Result {
+    Ok(())
 }
 
 #[macro_export]
@@ -165,6 +212,7 @@ macro_rules! proof {
         #[kani::proof]
         #[kani::unwind($u)]
         #[kani::stub(std::fmt::format, $crate::sym::stub_format)]
+        #[kani::stub(core::fmt::write, $crate::sym::stub_fmt_write)]
         pub fn $name() $body
 
         #[cfg(all(not(kani), test))]
